@@ -126,22 +126,25 @@ class RealCtx(BaseCtx):
         self.reached = []
 
     def int(self, name, lo, hi):
-        v = self.inputs[name]
+        # partial models (reachability witnesses taken before later inputs were declared) default to the lower bound
+        v = self.inputs.get(name, lo if lo > 0 or hi < 0 else 0)
         if not (lo <= v <= hi):
             raise PathAbort()
         return v
 
     def bool(self, name):
-        return bool(self.inputs[name])
+        return bool(self.inputs.get(name, False))
 
     def year(self, name, lo=1, hi=9999):
+        if name + "_c" not in self.inputs:
+            return lo
         y = cal.year_from_digits(self.inputs, name)
         if not (lo <= y <= hi):
             raise PathAbort()
         return y
 
     def digits(self, name, n):
-        return "".join(str(self.inputs[f"{name}{i}"]) for i in range(n))
+        return "".join(str(self.inputs.get(f"{name}{i}", 0)) for i in range(n))
 
     def assume(self, cond):
         if not cond:
